@@ -6,7 +6,7 @@ from sexpr import enc, hexs
 from odata_query import ast
 
 import os
-PROP_MODS = ["ODataVerif.Tie.Sql", "ODataVerif.Props.C07"] + ["ODataVerif.Props.C07Lex", "ODataVerif.Props.C07Shape"]
+PROP_MODS = ["ODataVerif.Tie.Sql", "ODataVerif.Tie.SqlTemplates", "ODataVerif.Tie.ParserTables", "ODataVerif.Props.C07", "ODataVerif.Props.C07Lex", "ODataVerif.Props.C07Shape", "ODataVerif.Props.C06Image"]
 BENIGN = "x"
 KF_ESCAPE = "C07:sql/base.py:_to_pattern:escape-clause"
 
@@ -71,7 +71,7 @@ def judge_pair(host, ben, content):
     return "ok", ""
 
 def run(ctx):
-    common.build_and_audit(ctx, PROP_MODS, gen=lambda c: gen_tables.generate(["Sql"]))
+    common.build_and_audit(ctx, PROP_MODS, gen=lambda c: gen_tables.generate(["Sql", "SqlTemplates", "ParserTables"]))
     rng = ctx.rng
     hostile = list(sc.HOSTILE)
     if ctx.thorough:
